@@ -91,6 +91,100 @@ func (p *Pkg) storeAssigns(fn *ast.FuncDecl, lhs string) []string {
 	return out
 }
 
+// storeReach: fn followed by the package-level functions it calls (transitively, each once, in
+// first-call order) — so that a fact about WHAT is parsed / compared does not depend on whether the
+// code sits in the function itself or in a helper it shares with others.
+func (p *Pkg) storeReach(fn *ast.FuncDecl) []*ast.FuncDecl {
+	out := []*ast.FuncDecl{}
+	seen := map[*ast.FuncDecl]bool{}
+	var visit func(f *ast.FuncDecl)
+	visit = func(f *ast.FuncDecl) {
+		if f == nil || seen[f] {
+			return
+		}
+		seen[f] = true
+		out = append(out, f)
+		ast.Inspect(f, func(n ast.Node) bool {
+			if c, ok := n.(*ast.CallExpr); ok {
+				if id, ok := c.Fun.(*ast.Ident); ok {
+					visit(p.Func("", id.Name))
+				}
+			}
+			return true
+		})
+	}
+	visit(fn)
+	return out
+}
+
+// storeCallShapes: over storeReach(fn), the calls whose callee contains one of subs, printed as
+// callee(args) with every non-literal argument replaced by "_" (names of variables do not matter).
+func (p *Pkg) storeCallShapes(fn *ast.FuncDecl, subs ...string) []string {
+	var out []string
+	for _, f := range p.storeReach(fn) {
+		ast.Inspect(f, func(n ast.Node) bool {
+			c, ok := n.(*ast.CallExpr)
+			if !ok {
+				return true
+			}
+			callee := p.Src(c.Fun)
+			for _, s := range subs {
+				if strings.Contains(callee, s) {
+					args := make([]string, len(c.Args))
+					for i, a := range c.Args {
+						if lit, ok := a.(*ast.BasicLit); ok {
+							args[i] = lit.Value
+						} else {
+							args[i] = "_"
+						}
+					}
+					out = append(out, callee+"("+strings.Join(args, ", ")+")")
+					break
+				}
+			}
+			return true
+		})
+	}
+	return out
+}
+
+// storeCompares: over storeReach(fn), the comparisons (sub-expressions of any condition) that
+// mention `ident`.
+func (p *Pkg) storeCompares(fn *ast.FuncDecl, ident string) []string {
+	var out []string
+	for _, f := range p.storeReach(fn) {
+		ast.Inspect(f, func(n ast.Node) bool {
+			if b, ok := n.(*ast.BinaryExpr); ok {
+				switch b.Op.String() {
+				case "<", "<=", ">", ">=", "==", "!=":
+					s := p.Src(b)
+					if strings.Contains(s, ident) {
+						out = append(out, s)
+					}
+				}
+			}
+			return true
+		})
+	}
+	return out
+}
+
+// storeLitIndexes: over storeReach(fn), index expressions with a literal index, as "_[i]".
+func (p *Pkg) storeLitIndexes(fn *ast.FuncDecl) []string {
+	var out []string
+	for _, f := range p.storeReach(fn) {
+		ast.Inspect(f, func(n ast.Node) bool {
+			if ix, ok := n.(*ast.IndexExpr); ok {
+				if lit, ok := ix.Index.(*ast.BasicLit); ok {
+					out = append(out, "_["+lit.Value+"]")
+				}
+			}
+			return true
+		})
+	}
+	return out
+}
+
 func init() {
 	registerExtractor(Extractor{Name: "Store", Run: func(p *Pkg) (string, error) {
 		need := func(recv, name string) (*ast.FuncDecl, error) {
@@ -142,8 +236,13 @@ func init() {
 		def("Remove: which memtable is consulted", "removeIndex", p.storeExprs(fns["PersistentHybridIndex.Remove"], "memtables["))
 		def("listSegments: which file identifies a segment", "listPrefix", p.storeCalls(fns["storageProvider.listSegments"], "strings.HasPrefix"))
 		def("deleteSegment: order of the removed files", "deleteOrder", p.storeExprs(fns["storageProvider.deleteSegment"], "[]string{"))
-		def("initSegmentCounter: which names count, maximum", "counterConds",
-			append(p.IfConds(fns["storageProvider.initSegmentCounter"], "strings."), p.IfConds(fns["storageProvider.initSegmentCounter"], "maxSegmentID")...))
+		def("initSegmentCounter (with the helpers it calls): how a file name is parsed — split at \"_\", second part, suffixes trimmed, decimal", "counterParse",
+			append(p.storeCallShapes(fns["storageProvider.initSegmentCounter"], "strings.Split", "strings.TrimSuffix", "strconv.ParseUint"),
+				p.storeLitIndexes(fns["storageProvider.initSegmentCounter"])...))
+		def("initSegmentCounter (with helpers): no test restricts the KIND of file that counts", "counterKindFilter",
+			p.storeCallShapes(fns["storageProvider.initSegmentCounter"], "strings.HasPrefix", "strings.HasSuffix"))
+		def("initSegmentCounter (with helpers): the running maximum", "counterMax",
+			p.storeCompares(fns["storageProvider.initSegmentCounter"], "maxSegmentID"))
 		def("initSegmentCounter: the value stored", "counterStore", p.storeCalls(fns["storageProvider.initSegmentCounter"], "segmentCounter.Store"))
 		def("nextSegmentID", "nextID", p.storeReturns(fns["storageProvider.nextSegmentID"]))
 		def("memtable.hasRoomFor: results", "hasRoomReturns", p.storeReturns(fns["memtable.hasRoomFor"]))
